@@ -351,7 +351,7 @@ def run(ctx):
                 cases.append((kind, reentrant, n, 0, True))
     with mp.get_context('fork').Pool(min(16, os.cpu_count() or 4)) as p:
         lh = p.map_async(long_hold_case, [(3.6,)] if ctx.tier == 'quick' else [(3.6,), (7.0,), (1.0,)])
-        lh2 = p.map_async(long_hold2_case, [(0.5, 0.3)] if ctx.tier == 'quick' else [(0.5, 0.3), (1.0, 0.5), (0.2, 0.2)])
+        lh2 = p.map_async(long_hold2_case, [(1.0, 0.4)] if ctx.tier == 'quick' else [(1.0, 0.4), (2.0, 0.5), (0.5, 0.3)])
         traces = p.map(one_case, cases, chunksize=4)
         lht = lh.get(120)
         lht2 = lh2.get(120)
